@@ -26,9 +26,9 @@ LEVEL = "exploration"
 RULE = (
     "(a) every key of the tool's extension and file-name tables (~325 file types) x body {empty, code} with default options; (b) sampled product: "
     "file type from the tables or unrecognised, --style (27 names) or detected, --single-line / --multi-line, ten --copyright-prefix values, 0..3 "
-    "--year / --exclude-year / today's year, --force-dot-license / --fallback-dot-license / --skip-unrecognised, --no-replace, a holder / LicenseRef- whose tail mirrors the comment marker of its line, templates {default, prose, "
+    "--year / --exclude-year / today's year, --force-dot-license / --fallback-dot-license / --skip-unrecognised, --no-replace, --merge-copyrights, a holder / LicenseRef- whose tail mirrors the comment marker of its line, templates {default, prose, "
     "without contributor loop, pre-commented in the file's style, dropping licences / copyright / both}, binary files (not UTF-8 | control characters that are valid UTF-8), 0..3 holders, 0..2 expressions, "
-    "0..2 contributors, pre-existing header in own style / foreign style / .license, or a leading comment block that is one ignore block.  Oracle: success => read-back == before U requested (copyright, "
+    "0..2 contributors, pre-existing header in own style / foreign style / .license, (optionally quoting a notice inside an ignore block of the same comment), or a leading comment block that is one ignore block.  Oracle: success => read-back == before U requested (copyright, "
     "licences; contributors when the template renders them); dropping template => never success.  Non-trivial = success case not (python style, default "
     "options); distinct by case."
 )
@@ -79,6 +79,8 @@ def case(draw):
             # a requested holder / LicenseRef- whose tail mirrors the comment marker of the line it will be written on; binary content that is valid UTF-8
             # the file starts with a comment block in its own style that holds nothing but an ignore block
             "ignored_top": draw(st.integers(0, 7)) == 0,
+            # the existing header's comment block also quotes a notice inside an ignore block; --merge-copyrights
+            "ignored_in_header": draw(st.integers(0, 3)) == 0, "merge": draw(st.integers(0, 3)) == 0,
             "mirror": draw(st.integers(0, 5)) == 0, "bincontent": draw(st.sampled_from(["nonutf8", "controls"]))}
 
 
@@ -121,6 +123,12 @@ def check(ctx, c, table_walk=False):
                     if body.startswith("#!"):
                         body = "print('x')\n"
                     content = P.header_text(hstyle, existing["cop"], existing["lic"], existing["con"], body=body or "x\n")
+                    if c.get("ignored_in_header") and existing["where"] == "own":
+                        hl = list(existing["cop"]) + [f"SPDX-FileContributor: {x}" for x in existing["con"]] + [f"SPDX-License-Identifier: {x}" for x in existing["lic"]]
+                        hl += ["REUSE-IgnoreStart", "SPDX-FileCopyrightText: 1999 Ignored Holder", "Copyright (C) 1998 Ignored Holder", "REUSE-IgnoreEnd"]
+                        blk = S.wrap_single(hstyle, hl) if S.has_single(hstyle) else S.wrap_block(hstyle, hl)
+                        content = "\n".join(blk) + "\n\n" + (body or "x\n")
+                        ctx.label("existing:ignore-block-inside-header")
         if c.get("ignored_top") and not c["binary"] and not to_dotlicense and not existing and used_style:
             lines = ["REUSE-IgnoreStart", "SPDX-FileCopyrightText: 1999 Ignored Holder", "SPDX-License-Identifier: LicenseRef-ignored", "REUSE-IgnoreEnd"]
             blk = S.wrap_single(used_style, lines) if S.has_single(used_style) and (c["line"] != "multi" or not S.has_multi(used_style)) else S.wrap_block(used_style, lines)
@@ -158,6 +166,8 @@ def check(ctx, c, table_walk=False):
             args += ["--template", tname]
         if c["no_replace"]:
             args.append("--no-replace")
+        if c.get("merge"):
+            args.append("--merge-copyrights")
         recursive = bool(c.get("recursive")) and name.startswith("src/")
         if recursive:
             args += ["-r", "src"]
@@ -180,10 +190,14 @@ def check(ctx, c, table_walk=False):
             want_s_lic = {AN.norm_expr(x) for x in second_existing["lic"]} | {AN.norm_expr(x) for x in req["licences"]}
             if c["style"] and c["style"] != "python" and second == "header":
                 pass  # forced foreign style: still a union, checked below the same way
+            if c.get("merge") and s_cop is not None:
+                hs = lambda lines: {(V.parse_notice(x) or (None, None, x))[2] for x in lines}  # noqa: E731
+                if hs(want_s_cop) <= hs(s_cop):
+                    s_cop = want_s_cop  # re-rendered by the merge: holders are all there
             if s_cop is not None and changed(sname) and (s_cop != want_s_cop or s_lic != want_s_lic):
                 ctx.fail(c, f"second file of the invocation ({sname}): lint reads copyrights={sorted(s_cop)} licences={sorted(map(str, s_lic))}; expected {sorted(want_s_cop)} / {sorted(map(str, want_s_lic))}")
         labels = [f"filestyle:{fstyle}", f"forced-style:{bool(c['style'])}", f"companion:{companion}", f"recursive:{recursive}", f"second:{second}", f"line:{c['line']}", f"dot:{c['dot']}", f"template:{c['template'] if tname else None}",
-                  f"binary:{c['binary'] and c.get('bincontent', 'nonutf8')}", f"mirror:{req is not c['req']}", f"existing:{existing['where'] if existing else None}", f"exit:{res.code}", f"success:{success}",
+                  f"binary:{c['binary'] and c.get('bincontent', 'nonutf8')}", f"mirror:{req is not c['req']}", f"merge:{bool(c.get('merge'))}", f"existing:{existing['where'] if existing else None}", f"exit:{res.code}", f"success:{success}",
                   f"prefix:{req['prefix']}", f"years:{len(req['years'])}{'x' if req['exclude_year'] else ''}"]
         nontrivial = success and not (used_style == "python" and not any([c["style"], c["line"], c["dot"], tname, req["prefix"], existing, c["binary"]]))
         ctx.count(c, nontrivial=nontrivial, labels=labels if not table_walk else ["table-walk", f"filestyle:{fstyle}", f"success:{success}"],
@@ -216,6 +230,14 @@ def check(ctx, c, table_walk=False):
         cop, lic, con, lres = AN.read_back(root, name)
         if cop is None:
             ctx.fail(c, f"after a successful annotate, lint --json does not list {name}: {lres.brief()}")
+        if any("Ignored Holder" in x for x in cop):
+            ctx.fail(c, f"a notice quoted inside an ignore block of the old header is read back after annotate: {sorted(cop)}")
+        if c.get("merge"):
+            # merged notices are re-rendered (C09 / C20 say how): holders must all be there, lines are not compared
+            holders = lambda lines: {(V.parse_notice(x) or (None, None, x))[2] for x in lines}  # noqa: E731
+            if not holders(want_cop) <= holders(cop):
+                ctx.fail(c, f"annotate --merge-copyrights reported success but holders {sorted(holders(want_cop) - holders(cop))} are not read back: {sorted(cop)}")
+            cop = want_cop
         if cop != want_cop or lic != want_lic:
             ctx.fail(c, f"annotate reported success but lint reads copyrights={sorted(cop)} licences={sorted(map(str, lic))}; expected copyrights={sorted(want_cop)} licences={sorted(map(str, want_lic))}")
         renders_contributors = tname not in ("nocontrib",) and tname not in AN.DROPPING
